@@ -258,8 +258,18 @@ def r4_float_and_list_formatting(ctx):
         sym.same(env.get("row_lens", [None])[0], f"lengths.sum(axis=-1) + {il}.lengths") and sym.same(env.get("joined", [None])[0], f"join(int_strings, sep={g.params[1]}, keep_last=True)") and \
         sym.same(env.get("ra", [None])[0], "EncodedRaggedArray(joined, row_lens)")
     ctx.ob(g.where, "a list row = its elements' strings each followed by the separator (row length = sum of element lengths + element count)", ok, "", key="C18-R4|list-join")
-    drop = [x for x in body_walk(g.node) if isinstance(x, ast.Assign) and u(x.targets[0]) == "ra" and isinstance(x.value, ast.Subscript)]
+    # the drop is `ra[:, :-1]`, assigned back or returned directly, on the path where keep_last is false (whichever way the branch is written)
+    from .round7 import _parents, _guards
+    par = _parents(g.node)
+    kl = g.params[2] if len(g.params) > 2 else "keep_last"
+    drop = [x for x in body_walk(g.node) if isinstance(x, (ast.Assign, ast.Return)) and isinstance(x.value, ast.Subscript) and u(x.value.value) == "ra"
+            and (isinstance(x, ast.Return) or u(x.targets[0]) == "ra")]
     ok = len(drop) == 1 and sym.canon(drop[0].value.slice) == sym.canon(sym.parse_expr("x[:, :-1]").slice)
+    if ok:
+        gs = [(br, u(t)) for br, t in _guards(drop[0], par)]
+        ok = ("then", f"not {kl}") in gs or ("else", kl) in gs
+        if ok and isinstance(drop[0], ast.Return):      # then the other branch returns the untrimmed rows
+            ok = any(isinstance(x, ast.Return) and u(x.value) == "ra" for x in body_walk(g.node))
     ctx.ob(g.where, "the trailing separator of each row is dropped unless asked for", ok, u(drop[0]) if drop else "", key="C18-R4|list-trailing")
     j = ix.func(S, "join")
     txt = u(j.node)
